@@ -5,6 +5,7 @@ renamed over or removed.  Each run becomes one abstract event; Trace_InPlace.tla
 from __future__ import annotations
 
 import copy
+import hashlib
 import json
 import os
 import random
@@ -103,7 +104,8 @@ def classify_site(frame):
 
 
 class Tracer:
-    def __init__(self, fault_at=None):
+    def __init__(self, fault_at=None, record=True):
+        self.record = record
         self.n = 0
         self.fault_at = fault_at
         self.sites = []          # (class, touched-before) per counted line event (baseline only)
@@ -113,7 +115,9 @@ class Tracer:
     def _local(self, frame, event, arg):
         if event == "line":
             self.n += 1
-            if self.fault_at is None:
+            if self.fault_at is None and not self.record:
+                pass
+            elif self.fault_at is None:
                 self.sites.append((classify_site(frame), _AUDIT["touched"]))
             elif self.n == self.fault_at:
                 self.fault_site = classify_site(frame)
@@ -180,6 +184,8 @@ def build_repodata(shape, r):
                 if all(twin_canon(x) != b for x in metas.values()):
                     break
             metas[m] = v
+        if m not in metas and shape.get("tiny"):
+            metas[m] = {"build": m}
         if m not in metas:
             metas[m] = {"name": "pkg", "version": "1.%d" % r.randint(0, 999), "build": m, "depends": ["x >=%d" % r.randint(0, 9)],
                         "size": r.randint(1, 10 ** 9), "sha256": "%064x" % r.getrandbits(256), "nested": {"é": [1.5, None]}}
@@ -225,7 +231,7 @@ def build_repodata(shape, r):
 
 def setup_case(case, workdir, seed):
     """Materialise one case: returns (callable, target path, context)."""
-    r = random.Random(hash((seed, json.dumps(case, sort_keys=True))) & 0xFFFFFFFF)
+    r = random.Random(int.from_bytes(hashlib.sha256(("%d|" % seed + json.dumps(case, sort_keys=True)).encode()).digest()[:8], "big"))
     proc, inp = case["proc"], case["input"]
     key_seed = crypto.seed_for(77, seed)
     ctx = {"key_seed": key_seed, "pub": crypto.fast_public(key_seed).hex()}
@@ -239,8 +245,15 @@ def setup_case(case, workdir, seed):
         doc, metas = build_repodata(shape, r)
         if inp == "packages_not_object":
             doc["packages"] = ["not", "an", "object"]
+        if inp == "conda_not_object":
+            doc["packages.conda"] = r.choice([["not", "an", "object"], "x", 5])
         ctx["doc"], ctx["metas"] = doc, metas
         data = twin_canon(doc) if (r.random() < 0.5 and shape["pre"] != "current_own_key") else json.dumps(doc).encode()
+        if r.random() < 0.6:          # the same document as other tools write it: raw UTF-8 instead of \u escapes
+            try:
+                data = json.dumps(doc, ensure_ascii=False, indent=r.choice([None, 1, 4])).encode("utf-8")
+            except UnicodeEncodeError:
+                pass                  # lone surrogates cannot be written raw
         if inp == "not_json":
             data = b'{"packages": {"x": {"truncated": '
         with open(target, "wb") as f:
@@ -298,7 +311,7 @@ def setup_case(case, workdir, seed):
     return (lambda: common.write_metadata_to_file(value, target)), target, ctx
 
 
-def run_case(case, workdir, seed, fault_at=None):
+def run_case(case, workdir, seed, fault_at=None, record=True):
     """Execute one case (optionally with an injected fault); return the abstract event + baseline info."""
     install_audit()
     fn, target, ctx = setup_case(case, workdir, seed)
@@ -306,7 +319,7 @@ def run_case(case, workdir, seed, fault_at=None):
         before = f.read()
     if "prep" in ctx:
         ctx["prep"]()
-    tr = Tracer(fault_at)
+    tr = Tracer(fault_at, record)
     _AUDIT.update(active=True, target=os.path.abspath(target), touched=False, events=[])
     exc = None
     old_stdout = sys.stdout
